@@ -36,6 +36,10 @@ def run(ck, ctx):
                      "(shared with C08 R08.1): a node whose clock falls behind a value it holds stamps its next accepted write below that "
                      "value - it serves the new value while every peer keeps the old one")
     ck.rule("R06.10", DELTA_TEXT)
+    ck.rule("R06.11", "stamps order updates the same way everywhere: a local write is stamped with the tick taken for it (the outer stamp follows the "
+                      "tick), and every insert of a remote value into the replication state is dominated by the clock update past its stamp - a "
+                      "replica that stamps a later write below an update it has already seen loses that write on its peers but keeps it locally "
+                      "(shared with C08 R08.2/R08.3)")
     for cfg in ctx.configs:
         prog = ctx.prog(cfg)
         ck.configs.append(cfg)
@@ -43,6 +47,9 @@ def run(ck, ctx):
         from . import c08 as _c08
         from .core import Alias as _Alias
         _c08._r081(_Alias(ck, "R08.1", "R06.9"), prog, cfg)
+        from .core import Only as _Only
+        _c08._r082(_Only(ck, {"R08.2": "R06.11"}), prog, cfg)
+        _c08._r083(_Only(ck, {"R08.3": "R06.11"}), prog, cfg)
         _r061(ck, prog, cfg)
         _r062(ck, prog, cfg)
         _r063(ck, prog, cfg)
